@@ -51,6 +51,7 @@ def kindOfBase (name : String) : Option Kind :=
   | "debounce" => some Kinds.C20.debounceKind
   | "delay" => some Kinds.C20.delayKind
   | "throttle" => some Kinds.C20.throttleKind
+  | "throttlerace" => some Kinds.C20.throttleRaceKind
   | "after" => some Kinds.Funcs.afterKind
   | "before" => some Kinds.Funcs.beforeKind
   | "once" => some Kinds.Funcs.onceKind
